@@ -20,11 +20,14 @@ CONSTANTS Procs,     \* scheduler processes
           StrictEvents, \* TRUE: a file-system event / a notification is handled only if one is pending (model checking);
                         \* FALSE: they may be handled at any time (trace validation: the log says when)
           FixF5,     \* TRUE: an unparsable (half written) token file does not kill the observer / the recount
+          FixF23,    \* TRUE: a reclaim thread removes the token file while it holds the job's run lock (nobody is starting the
+                     \*       job again, the job is not running); FALSE: it removes whatever file has that name when it gets to it
           AddFirst   \* TRUE: a dependency is registered with the token before its first check (what aio_submit does);
                      \* FALSE: the other order, in which a release that falls between the two is lost
 
 VARIABLE wl          \* the workload, fixed by Init: [owner: job -> process that submits it, req: job -> amount, total,
-                     \*   totals: the totals with which a process may declare the token again]
+                     \*   totals: the totals with which a process may declare the token again,
+                     \*   resub: the amounts with which a job that has released the token may be submitted again]
 Owner == wl.owner
 Req == wl.req
 Total == wl.total
@@ -61,7 +64,7 @@ InitWith(w) ==
   /\ pend = [p \in Procs |-> {}]
   /\ jobst = [j \in Jobs |-> "idle"] /\ dstat = [j \in Jobs |-> "WAIT"]
   /\ notify = [p \in Procs |-> {}] /\ reclaiming = [p \in Procs |-> {}]
-  /\ info = [total |-> w.total, ptotal |-> [p \in Procs |-> w.total], pending |-> [p \in Procs |-> FALSE], max |-> w.total]
+  /\ info = [total |-> w.total, ptotal |-> [p \in Procs |-> w.total], pending |-> [p \in Procs |-> FALSE], max |-> w.total, resub |-> 0]
 
 (* every live observer is told about a change of the directory (including the process that made it) *)
 Tell(kinds, j) == [p \in Procs |-> IF alive[p] /\ obs[p] THEN pend[p] \cup {<<k, j>> : k \in kinds} ELSE pend[p]]
@@ -85,6 +88,14 @@ SubmitCheck(j) ==
   /\ alive[Owner[j]] /\ jobst[j] = (IF AddFirst THEN "registered" ELSE "idle")
   /\ jobst' = [jobst EXCEPT ![j] = IF AddFirst THEN "submitted" ELSE "checked"] /\ dstat' = [dstat EXCEPT ![j] = Status(Owner[j], j)]
   /\ UNCHANGED <<files, ipc, cs, alive, obs, avail, cache, watching, pend, notify, reclaiming, wl, info>>
+
+(* a job that has given its token back is submitted again (same name, hence same token file), asking for another amount *)
+Resubmit(j, c) ==
+  /\ jobst[j] = "released" /\ alive[Owner[j]] /\ files[j] = "absent" /\ info.resub < 1
+  /\ jobst' = [jobst EXCEPT ![j] = "idle"] /\ dstat' = [dstat EXCEPT ![j] = "WAIT"]
+  /\ wl' = [wl EXCEPT !.req[j] = c]
+  /\ info' = [info EXCEPT !.resub = @ + 1]
+  /\ UNCHANGED <<files, ipc, cs, alive, obs, avail, cache, watching, pend, notify, reclaiming>>
 
 Lock(p, kind, j) ==
   /\ alive[p] /\ cs[p] = None /\ ipc = "free" /\ Owner[j] = p
@@ -196,8 +207,14 @@ ReclaimDecide(p, j) ==
   /\ watching' = [watching EXCEPT ![p] = @ \ {j}] /\ reclaiming' = [reclaiming EXCEPT ![p] = @ \cup {j}]
   /\ UNCHANGED <<files, pend, ipc, cs, alive, obs, avail, cache, jobst, dstat, notify, wl, info>>
 
+(* who holds the run lock of job j: its scheduler from before the tokens are taken until the job process exists, then the
+   job process until it ends *)
+JobLocked(j) == \/ jobst[j] = "running"
+                \/ alive[Owner[j]] /\ (jobst[j] = "holding" \/ (cs[Owner[j]].kind = "acq" /\ cs[Owner[j]].job = j))
+
 ReclaimDelete(p, j) ==
   /\ alive[p] /\ j \in reclaiming[p]
+  /\ FixF23 => ~JobLocked(j)
   /\ reclaiming' = [reclaiming EXCEPT ![p] = @ \ {j}]
   /\ files' = [files EXCEPT ![j] = "absent"] /\ pend' = IF Present(j) THEN Tell({"deleted"}, j) ELSE pend
   /\ UNCHANGED <<ipc, cs, alive, obs, avail, cache, watching, jobst, dstat, notify, wl, info>>
@@ -240,6 +257,7 @@ Kill(p) ==
 Next ==
   \/ \E j \in Jobs : SubmitAdd(j) \/ SubmitCheck(j) \/ JobStart(j) \/ JobEnd(j) \/ Abort(j)
   \/ \E p \in Procs, j \in Jobs, k \in {"acq", "rel"} : Lock(p, k, j)
+  \/ \E j \in Jobs, c \in wl.resub : Resubmit(j, c)
   \/ \E p \in Procs : OnInfo(p) \/ \E n \in wl.totals : n # info.total /\ Redeclare(p, n)
   \/ \E p \in Procs : Recount(p) \/ AcqFail(p) \/ CreateOpen(p) \/ CreateWrite(p) \/ AcqOk(p) \/ RelDelete(p) \/ RelOk(p) \/ Kill(p)
   \/ \E p \in Procs, j \in Jobs : Recheck(p, j) \/ OnDeleted(p, j) \/ ReclaimDecide(p, j) \/ ReclaimDelete(p, j)
@@ -251,6 +269,9 @@ Spec == (\E w \in {} : InitWith(w)) /\ [][Next]_vars   \* Init is provided by th
 Holders == {j \in Jobs : files[j] = "written"}
 (* C08: the jobs holding the token never hold more than its total *)
 Capacity == Sum(Holders) <= info.max       \* (a total declared again never takes back what running jobs hold)
+(* C08: ... and the jobs that run under the token are among them *)
+RunningHoldFile == \A j \in Jobs : jobst[j] = "running" => files[j] = "written"
+RunningUnderCapacity == Sum({j \in Jobs : jobst[j] = "running"}) <= info.max
 (* C08: only the process inside the critical section touches token files on behalf of an acquisition *)
 MutualExclusion == \A p \in Procs : cs[p] # None => ipc = p
 (* C09: a token file is only taken away from a job that has ended (or never started because its scheduler died) *)
